@@ -34,6 +34,8 @@ sv = sp.sv
 
 DICTSUB = z3.Function("DICTSUB", sp.S, sp.B)        # the class is a subclass of dict (ImageMetadata)
 ISTYPE_OTHER = z3.Function("ISTYPE_OTHER", sp.I, sp.B)
+BIN_NONEMPTY = z3.Function("BIN_NONEMPTY", sp.Bin, sp.B)
+OTHER_TRUTHY = z3.Function("OTHER_TRUTHY", V, sp.B)          # e.g. timedelta(0) is falsy
 UNITS_N = z3.Function("UNITS_N", V, sp.I)
 UNIT = z3.Function("UNIT", V, sp.I, V)
 
@@ -115,7 +117,7 @@ def nargs(h):
 def truthy(t):
     return sp.ite((V.is_Non(t), F), (V.is_Bool(t), V.b(t)), (V.is_Int(t), V.i(t) != 0), (V.is_Float(t), V.r(t) != 0), (V.is_Str(t), V.s(t) != sv("")),
                   (V.is_List(t), VL.is_cons(V.items(t))), (V.is_Tuple(t), VL.is_cons(V.titems(t))), (V.is_Set(t), VL.is_cons(V.sitems(t))),
-                  (V.is_Dict(t), KV.is_kcons(V.ents(t))), T)
+                  (V.is_Dict(t), KV.is_kcons(V.ents(t))), (V.is_Bytes(t), BIN_NONEMPTY(V.bp(t))), (V.is_Other(t), OTHER_TRUTHY(t)), T)
 
 
 KIND_OF_TYPE = {"datetime.datetime": (sp.K_DATETIME,), "datetime.date": (sp.K_DATE, sp.K_DATETIME), "datetime.time": (sp.K_TIME,),
